@@ -1,5 +1,8 @@
 // Unit `rt_handles`: actix-rt — the handle methods that enqueue commands, and SystemRunner::run (C09, C10; partial).
 use vstd::prelude::*;
+use vstd::future::*;
+use core::future::Future;
+use core::task::Poll;
 verus! {
 
 //@include ../common/core.rs
@@ -63,17 +66,52 @@ pub struct Arbiter { pub tx: mpsc::UnboundedSender<ArbiterCommand>, pub thread_h
 //@check_struct file=actix-rt/src/system.rs name=System fields=id,sys_tx,arbiter_handle
 pub struct System { pub id: usize, pub sys_tx: mpsc::UnboundedSender<SystemCommand>, pub arbiter_handle: ArbiterHandle }
 
-//@check_struct file=actix-rt/src/system.rs name=SystemRunner fields=rt,stop_rx
+/// tokio oneshot::Receiver<i32> of the exit code: a future; its output is what the SystemController sent (unit rt:
+/// `stop_tx.send(code)` on Exit) or a RecvError if the controller was dropped without sending
 #[verifier::external_body]
-pub struct SystemRunner { _p: () }
-impl SystemRunner {
-    pub uninterp spec fn code(&self) -> io::Result<i32>;
-    /// blocks on the runtime until the stop channel delivers the exit code (tokio; not verified)
+#[derive(Debug)]
+pub struct RecvError { _p: () }
+pub mod oneshot {
+    use super::*;
     #[verifier::external_body]
-    pub fn run_with_code(self) -> (r: io::Result<i32>)
-        ensures r == self.code(),
-    { unimplemented!() }
+    #[verifier::reject_recursive_types(T)]
+    pub struct Receiver<T> { _p: core::marker::PhantomData<T> }
+    #[verifier::external]
+    impl<T> Future for Receiver<T> {
+        type Output = Result<T, RecvError>;
+        fn poll(self: core::pin::Pin<&mut Self>, cx: &mut core::task::Context<'_>) -> Poll<Self::Output> { unimplemented!() }
+    }
 }
+/// crate::runtime::Runtime::block_on: runs the future to completion on this thread (A-AWAIT) and returns its output
+pub mod runtime {
+    use super::*;
+    #[verifier::external_body]
+    pub struct Runtime { _p: () }
+    impl Runtime {
+        #[verifier::external_body]
+        pub fn block_on<F: Future>(&self, f: F) -> (r: F::Output) ensures r == f@ { unimplemented!() }
+    }
+}
+/// R11b: the opaque future an async block evaluates to, as a user future
+#[verifier::external_body]
+pub fn vasync_block() -> (r: UserFut) { unimplemented!() }
+/// std::thread::JoinHandle<()>::join: returns when the thread has ended (`exited`), with its result
+pub uninterp spec fn exited(h: JoinHandle) -> bool;
+#[verifier::external_body]
+pub struct ThreadPanic { _p: () }
+impl JoinHandle {
+    pub uninterp spec fn outcome(&self) -> Result<(), ThreadPanic>;
+    #[verifier::external_body]
+    pub fn join(self) -> (r: Result<(), ThreadPanic>) ensures exited(self), r == self.outcome() { unimplemented!() }
+}
+pub mod thread { pub type Result<T> = core::result::Result<T, super::ThreadPanic>; }
+impl<T> Clone for mpsc::UnboundedSender<T> {
+    #[verifier::external_body]
+    fn clone(&self) -> (r: Self) ensures r.alive() == self.alive(), r.sent_in_call() == self.sent_in_call() { unimplemented!() }
+}
+
+//@check_struct file=actix-rt/src/system.rs name=SystemRunner fields=rt,stop_rx
+pub struct SystemRunner { pub rt: runtime::Runtime, pub stop_rx: oneshot::Receiver<i32> }
 
 impl ArbiterHandle {
 //@extract file=actix-rt/src/arbiter.rs item="impl ArbiterHandle / fn stop" ret=r props=C09,C10 name=arbiter::handle_stop
@@ -115,12 +153,65 @@ impl System {
 }
 
 impl SystemRunner {
+//@extract file=actix-rt/src/system.rs item="impl SystemRunner / fn run_with_code" ret=r props=C09 name=system::runner_run_with_code closures=1
+//@spec
+    requires true,
+    ensures
+        // the event loop runs until the stop channel resolves; the code the controller sent is what is returned   [C09]
+        self.stop_rx@ matches Ok(c) ==> r == Ok::<i32, io::Error>(c),
+        self.stop_rx@ is Err ==> r is Err,
+//@end
+
 //@extract file=actix-rt/src/system.rs item="impl SystemRunner / fn run" ret=r props=C09 name=system::runner_run
 //@spec
+    requires true,
     ensures
         // `run` turns exit code 0 into Ok and every non-zero code into an error   [C09]
-        r is Ok <==> self.code() == Ok::<i32, io::Error>(0),
-        self.code() matches Ok(c) && c != 0 ==> r is Err,
+        r is Ok <==> self.stop_rx@ == Ok::<i32, RecvError>(0),
+//@end
+}
+
+impl ArbiterHandle {
+//@extract file=actix-rt/src/arbiter.rs item="impl ArbiterHandle / fn new" ret=r props=C10 name=arbiter::handle_new
+//@spec
+    ensures r.tx == tx,
+//@end
+//@extract file=actix-rt/src/arbiter.rs item="impl ArbiterHandle / fn spawn_fn" ret=r props=C10 name=arbiter::handle_spawn_fn sig_replace="pub fn spawn_fn<F>=>pub fn spawn_fn<F: FnOnce()>;;where F: FnOnce() + Send + 'static,=> "
+//@spec
+    requires true,
+    ensures
+        r == self.tx.alive(),                                         // [C10] false once the arbiter is gone
+        self.tx.sent_in_call() matches Some(ArbiterCommand::Execute(_)),   // [C10] one task is enqueued: the future that calls `f`
+//@end
+}
+//@extract file=actix-rt/src/arbiter.rs item="impl ArbiterHandle / fn spawn_fn" async_block=1 block_sig="async fn spawn_fn_block<F: FnOnce()>(f: F) -> ()" props=C10 name=arbiter::handle_spawn_fn_block
+//@spec
+    requires call_requires(f, ()),
+    ensures call_ensures(f, (), ()),   // [C10] the task calls the function (FnOnce: at most once by type) and nothing else
+//@end
+
+impl Arbiter {
+//@extract file=actix-rt/src/arbiter.rs item="impl Arbiter / fn handle" ret=r props=C10 name=arbiter::arbiter_handle
+//@spec
+    ensures r.tx.alive() == self.tx.alive(),   // [C10] a handle to THIS arbiter's queue
+//@end
+//@extract file=actix-rt/src/arbiter.rs item="impl Arbiter / fn spawn" ret=r props=C10 name=arbiter::arbiter_spawn sig_replace="pub fn spawn<Fut>=>pub fn spawn;;future: Fut=>future: UserFut;;where Fut: Future<Output = ()> + Send + 'static,=> "
+//@spec
+    requires true,
+    ensures
+        r == self.tx.alive(),
+        self.tx.sent_in_call() == Some(ArbiterCommand::Execute(boxed(future))),   // [C10]
+//@end
+//@extract file=actix-rt/src/arbiter.rs item="impl Arbiter / fn spawn_fn" ret=r props=C10 name=arbiter::arbiter_spawn_fn sig_replace="pub fn spawn_fn<F>=>pub fn spawn_fn<F: FnOnce()>;;where F: FnOnce() + Send + 'static,=> "
+//@spec
+    requires true,
+    ensures
+        r == self.tx.alive(),
+        self.tx.sent_in_call() matches Some(ArbiterCommand::Execute(_)),   // [C10]
+//@end
+//@extract file=actix-rt/src/arbiter.rs item="impl Arbiter / fn join" ret=r props=C09,C10 name=arbiter::arbiter_join
+//@spec
+    ensures exited(self.thread_handle), r == self.thread_handle.outcome(),   // [C10] join returns only after the arbiter's thread has ended
 //@end
 }
 
